@@ -6,6 +6,8 @@ import XmppModel.Model.IbbSend
 import XmppModel.Lemmas.Ibb
 import XmppModel.Lemmas.IbbSend
 import XmppModel.Model.IbbClose
+import XmppModel.Model.IbbBody
+import XmppModel.Model.IbbTable
 import XmppModel.Generated.C15
 /-!
 # C15 — an in-band bytestream is a reliable ordered byte pipe
@@ -769,6 +771,162 @@ theorem C15_readers_stuck_without_repost :
   exact ⟨s, IbbReaders.reach_run .init hs, rest⟩
 
 end Readers
+
+
+/-! ### the body of a data packet is ALL the character data of the element (round D) -/
+section Body
+
+theorem bodyText_append (a b : List Seg) : bodyText (a ++ b) = bodyText a ++ bodyText b := by
+  induction a with
+  | nil => rfl
+  | cons x xs ih => simp [bodyText, ih]
+
+/-- how the character data is cut into pieces (text, CDATA sections, character references) is
+irrelevant: two serialisations with the same character data are handled identically (same reply,
+same state) -/
+theorem C15_body_serialisation_irrelevant (cd : Codec) (s : RState) (k : Bool) (a : Bytes) (b₁ b₂ : List Seg)
+    (h : bodyText b₁ = bodyText b₂) : recvBody cd s ⟨k, a, b₁⟩ = recvBody cd s ⟨k, a, b₂⟩ := by
+  simp [recvBody, h]
+
+/-- cutting a payload at any two places into a run of text, a CDATA section and character
+references gives the packet with the whole payload as one piece of text -/
+theorem C15_body_cut_anywhere (cd : Codec) (s : RState) (k : Bool) (a p : Bytes) (i j : Nat) :
+    recvBody cd s ⟨k, a, [.text (p.take i), .cdata ((p.drop i).take j), .charRefs ((p.drop i).drop j)]⟩ =
+      recvWire cd s ⟨k, a, p⟩ := by
+  have e : p.take i ++ ((p.drop i).take j ++ ((p.drop i).drop j ++ [])) = p := by
+    rw [List.append_nil, List.take_append_drop, List.take_append_drop]
+  simp only [recvBody, bodyText, Seg.content, e]
+
+/-- an acknowledged packet delivers what the WHOLE character data decodes to — every piece, in
+order, appended to what was there; a packet that is refused changes nothing -/
+theorem C15_body_accept_delivers_every_piece (cd : Codec) (s : RState) (w : BodyPacket)
+    (h : (recvBody cd s w).2 = .ack) :
+    ∃ d, cd.dec (bodyText w.body) = some d ∧ (recvBody cd s w).1.buf = s.buf ++ d ∧
+      (recvBody cd s w).1.seq = (s.seq + 1) % 65536 := by
+  unfold recvBody recvWire at h ⊢
+  by_cases hk : (!(w.known && s.live)) = true
+  · rw [if_pos hk] at h; simp at h
+  · rw [if_neg hk] at h ⊢
+    cases hp : parseSeqAttr w.seqAttr with
+    | malformed => simp [hp] at h
+    | num n =>
+      simp only [hp] at h ⊢
+      unfold recv at h ⊢
+      by_cases h1 : (!((⟨w.known, n, bodyText w.body⟩ : Packet).known && s.live)) = true
+      · rw [if_pos h1] at h; simp at h
+      · rw [if_neg h1] at h ⊢
+        by_cases h2 : (⟨w.known, n, bodyText w.body⟩ : Packet).seq ≠ s.seq
+        · rw [if_pos h2] at h; simp at h
+        · rw [if_neg h2] at h ⊢
+          cases hd : cd.dec (bodyText w.body) with
+          | none => simp [hd] at h
+          | some d =>
+            simp only [hd] at h ⊢
+            by_cases h3 : s.maxBuf > 0 ∧ s.buf.length + d.length > s.maxBuf
+            · rw [if_pos h3] at h; simp at h
+            · rw [if_neg h3]; exact ⟨d, rfl, rfl, rfl⟩
+
+theorem C15_body_refuse_unchanged (cd : Codec) (s : RState) (w : BodyPacket)
+    (h : (recvBody cd s w).2 ≠ .ack) : (recvBody cd s w).1 = s :=
+  C15_wire_refuse_unchanged cd s _ h
+
+/-- `QUJD<![CDATA[REVG]]>` on a fresh stream: acknowledged, the reader gets `ABCDEF` -/
+example : recvBody std ⟨true, 0, [120], 0⟩ ⟨true, [48], [.text [81, 85, 74, 68], .cdata [82, 69, 86, 71]]⟩ =
+    (⟨true, 1, [120, 65, 66, 67, 68, 69, 70], 0⟩, .ack) := by decide
+
+/-- negation witness (seeded C15-14): a receiver that keeps only the last piece of character data
+acknowledges `QUJD<![CDATA[REVG]]>` and delivers `DEF` — `ABC` is lost without an error -/
+theorem C15_body_last_piece_only_fails :
+    ∃ (s : RState) (body : List Seg),
+      (recvWire std s ⟨true, [48], lastPiece body⟩).2 = .ack ∧
+      (recvWire std s ⟨true, [48], lastPiece body⟩).1.buf ≠ (recvBody std s ⟨true, [48], body⟩).1.buf :=
+  ⟨⟨true, 0, [], 0⟩, [.text [81, 85, 74, 68], .cdata [82, 69, 86, 71]], by decide, by decide⟩
+
+/-- PROBE FACT: the real handler (both carriers), run by `harness facts` on packet 0 of a fresh
+stream for every serialisation of `bodyUniverse` (CDATA before / after / between text, only CDATA,
+a cut inside a base64 group, character references, an empty CDATA section, padding in its own
+piece, bad text in the first / last piece, nothing at all), answers and delivers exactly what the
+model does -/
+theorem C15_body_probe :
+    Generated.C15.bodyProbe = some (bodyUniverse.map fun ss => (ss, (bodyModel ss).1, (bodyModel ss).2)) := by
+  decide
+
+end Body
+
+/-! ### the stream table: a packet is handled by the connection that owns its sid NOW (round D) -/
+section Table
+
+/-- frame: a data packet changes at most the connection the table holds for its sid; every other
+connection — in particular a closed one that had the same sid before — the table itself and the
+handles stay as they are -/
+theorem C15_table_data_touches_only_current (cd : Codec) (s : HState) (sid : Nat) (a p : Bytes) (h : Nat)
+    (hh : s.table sid ≠ some h) :
+    (hstep cd s (.data sid a p)).1.conn h = s.conn h ∧ (hstep cd s (.data sid a p)).1.table = s.table := by
+  cases ht : s.table sid with
+  | none => simp [hstep, ht]
+  | some h' =>
+    have : h ≠ h' := fun e => hh (by rw [ht, e])
+    simp [hstep, ht, setConn, this]
+
+/-- a data packet is answered by `recvWire` on the connection registered for its sid — whatever
+happened before — and by item-not-found iff no stream is registered for the sid -/
+theorem C15_table_lookup (cd : Codec) (s : HState) (sid : Nat) (a p : Bytes) :
+    (hstep cd s (.data sid a p)).2 =
+      match s.table sid with
+      | none => .reply .itemNotFound
+      | some h => .reply (recvWire cd (s.conn h) ⟨true, a, p⟩).2 := by
+  cases ht : s.table sid <;> simp [hstep, ht]
+
+/-- a session id that is used again: whatever state the handler is in (the sid registered or not,
+any number of earlier streams with that sid, packets handled, closed by either side), after a
+stream with that sid is opened its packet 0 with a decodable payload is acknowledged and lands in
+the NEW connection, which held nothing before -/
+theorem C15_reopened_sid_is_fresh (cd : Codec) (s : HState) (sid : Nat) (p d : Bytes)
+    (hd : cd.dec p = some d) :
+    let s1 := (hstep cd s (.open sid)).1
+    (hstep cd s1 (.data sid [48] p)).2 = .reply .ack ∧
+    ((hstep cd s1 (.data sid [48] p)).1.conn s.next).buf = d ∧
+    (∀ h, h ≠ s.next → (hstep cd s1 (.data sid [48] p)).1.conn h = s.conn h) := by
+  have hp : parseSeqAttr [48] = .num 0 := by decide
+  simp only [hstep, if_pos, setConn, recvWire, fresh, hp, recv, hd]
+  refine ⟨by simp, by simp, ?_⟩
+  intro h hh
+  simp [hh]
+
+/-- closing a stream (either side) unregisters its sid: later packets for it are refused with
+item-not-found until a stream with that sid is opened again; the closed connection keeps its bytes -/
+theorem C15_closed_sid_unregistered (cd : Codec) (s : HState) (sid h : Nat) (a p : Bytes)
+    (ht : s.table sid = some h) :
+    let s1 := (hstep cd s (.closeSid sid)).1
+    (hstep cd s1 (.data sid a p)).2 = .reply .itemNotFound ∧ (s1.conn h).buf = (s.conn h).buf ∧
+      (s1.conn h).live = false := by
+  simp [hstep, ht, unregister, setConn, close]
+
+/-- the whole scenario on the executable model: stream 7 carries `ABC`, is closed by the peer, a new
+stream 7 is opened, its packet 0 (`DEF`) is acknowledged; the old connection still delivers `ABC`
+and then end-of-file, the new one `DEF` -/
+example : (hrun std {} [.open 7, .data 7 [48] [81, 85, 74, 68], .closeSid 7, .open 7,
+      .data 7 [48] [82, 69, 86, 71], .read 0 8, .read 0 8, .read 1 8]).2 =
+    [.opened 0, .reply .ack, .reply .ack, .opened 1, .reply .ack,
+     .read (.data [65, 66, 67]), .read .eof, .read (.data [68, 69, 70])] := by decide
+
+/-- negation witness (seeded C15-15): a handler that keeps using the connection of the last data
+packet for that sid refuses packet 0 of the re-opened stream (it reaches the closed connection) -/
+theorem C15_stale_lookup_cache_fails :
+    crun std {} [.open 7, .data 7 [48] [81, 85, 74, 68], .closeSid 7, .open 7, .data 7 [48] [82, 69, 86, 71]] ≠
+      (hrun std {} [.open 7, .data 7 [48] [81, 85, 74, 68], .closeSid 7, .open 7, .data 7 [48] [82, 69, 86, 71]]).2 := by
+  decide
+
+/-- REGENERATED FACT (lock discipline, not probeable): in package ibb every access to the stream table
+of `Handler` (the field that maps to `*Conn`, whatever it is called; lookup, insert, delete, nil test)
+is made while one and the same mutex of `Handler` is held — in the function itself or, for a helper
+that does not lock, at every one of its call sites.  This is what makes `hstep` (one table access =
+one atomic step) an adequate model while `Close` / `OpenIQ` run on application goroutines and the
+peer's packets and close requests on the serve goroutine.  (Before the round-D fix the peer's
+`<close/>` was looked up without the lock: `some false`.) -/
+theorem C15_stream_table_accesses_locked : Generated.C15.streamTableLocked = some true := by decide
+
+end Table
 
 /-! ### the executable codec instance: spot checks -/
 example : std.dec (std.enc [1, 2, 3, 4, 5]) = some [1, 2, 3, 4, 5] := by decide
